@@ -1,0 +1,18 @@
+//go:build verif
+
+// Package verifhook provides yield points for the verification harness in
+// /verif. With the verif build tag a scheduler can be installed that is called
+// at every shared-state access of codec construction and string interning;
+// without the tag the calls compile to nothing.
+package verifhook
+
+// Yield, when set, is called at every instrumented point. It must be set before
+// any goroutine that may reach a hook is started.
+var Yield func(point string, key any)
+
+// At reports that the calling goroutine has reached an instrumented point.
+func At(point string, key any) {
+	if y := Yield; y != nil {
+		y(point, key)
+	}
+}
